@@ -79,7 +79,24 @@ def gen_removed(run):
         # one case in four: the graph object first held a bigger model (all active) and was cleared before this model was built
         prefill = rng.randrange(1, 4) if rng.random() < 0.25 else 0
         if prefill and rng.random() < 0.5: removed = []
-        cases.append(Case("causalrm", list(tree) + [len(removed)] + removed + [prefill], [tuple(c) for c in calls], {"removed": removed, "n": nn, "prefill": prefill}))
+        if removed and rng.random() < 0.4:
+            # causaloids added AFTER the removals (they take over freed indices), each hung below a live causaloid (new sinks: the graph stays acyclic)
+            top0, _ = parse_tree(list(tree), 0)
+            used = {kd["id"] for kd in top0["kids"]}
+            fresh = [x for x in range(14) if x not in used]
+            rng.shuffle(fresh)
+            k_add = min(len(fresh), rng.choice([1, 1, 2]))
+            singles = []; redges = []
+            for j in range(k_add):
+                singles += [0, fresh[j], 900 + j, rng.choice([0, 1]), 0]
+                if live:
+                    redges.append((rng.choice(live), nn + j, 0))
+                    if j > 0 and rng.random() < 0.5: redges.append((nn + j - 1, nn + j, 0))
+            # calls may address the re-added causaloids through the index the model of the allocator gives them; the oracle does not rely on it
+            enc = list(tree) + [len(removed)] + removed + [prefill] + [k_add] + singles + [len(redges)] + [x for e in redges for x in e]
+            cases.append(Case("causalrm2", enc, [tuple(c) for c in calls], {"removed": removed, "n": nn, "prefill": prefill, "readd": k_add}))
+        else:
+            cases.append(Case("causalrm", list(tree) + [len(removed)] + removed + [prefill], [tuple(c) for c in calls], {"removed": removed, "n": nn, "prefill": prefill}))
     return cases
 
 
@@ -92,10 +109,32 @@ def oracle_removed(case, impl, spec):
     a = case.ints()
     top, p = parse_tree(a, 0)
     nrem = a[p]; removed = set(a[p + 1:p + 1 + nrem]); p += 1 + nrem + 1      # + the prefill count
+    n0 = case.meta["n"]
+    live = [k for k in range(n0) if k not in removed]
+    idmap = {k: top["kids"][k]["id"] for k in live} if top.get("kind") == 2 else {}
+    edges_all = [e for e in top.get("edges", []) if e[0] not in removed and e[1] not in removed]      # a removal deletes the incident edges
+    if case.fam == "causalrm2":
+        nadd = a[p]; p += 1
+        new_ids = []
+        for _ in range(nadd):
+            new_ids.append(a[p + 1]); p += 5
+        ne = a[p]; p += 1
+        redges = [(a[p + 3 * i], a[p + 3 * i + 1], a[p + 3 * i + 2]) for i in range(ne)]; p += 3 * ne
+        if len(toks) < 1 + nadd or toks[0] != nadd: return "the report of the re-added causaloids is missing"
+        given = toks[1:1 + nadd]; toks = toks[1 + nadd:]
+        for j, ix in enumerate(given):
+            # an index returned by an add is FRESH: not the index of a live causaloid
+            if ix < 0 or ix in live:
+                return (f"add_causaloid after the removal of {sorted(removed)} returned index {ix}, which is the index of a live causaloid (live: {sorted(live)}); "
+                        f"re-added causaloid number {j}")
+            live.append(ix); idmap[ix] = new_ids[j]
+        live.sort()
+        res = lambda x: given[x - n0] if x >= n0 else x
+        edges_all += [(res(x), res(y), w) for (x, y, w) in redges]
     calls = parse_calls(a, p)
     segs = split_out(toks, calls)
     if segs is None or len(segs) != len(calls): return "output does not match the calls"
-    nlive = case.meta["n"] - len(removed)
+    nlive = len(live)
     for i, s in enumerate(segs):
         flags = s["flags"]
         if len(flags) != 1 + nlive: return f"call {i}: {len(flags) - 1} live members reported, {nlive} expected"
@@ -108,9 +147,9 @@ def oracle_removed(case, impl, spec):
     # SHORTEST-PATH REASONING on a graph with removed causaloids: both ends live and a path reported by the graph store -> exactly the
     # causaloids of that path are evaluated, in order, up to the first one that is not true, and the verdict is their conjunction;
     # an end that is not a live causaloid, or no path -> an error and no evaluation
-    live_set = set(k for k in range(case.meta["n"]) if k not in removed)
+    live_set = set(live)
     if top.get("kind") == 2:
-        ids_ = [kd["id"] for kd in top["kids"]]
+        ids_ = idmap
         for i, (c, sg) in enumerate(zip(calls, segs)):
             if c["code"] != 3: continue
             pth = sg.get("path")
@@ -140,11 +179,10 @@ def oracle_removed(case, impl, spec):
     # over the remaining edges was evaluated (each evaluation is logged with its observation = 10 * id + code). Judged only when the
     # node count is not itself a live index: the traversal stops at "last index = node count", which on a graph with removed
     # causaloids can be a live node (then the original code may legitimately cut the walk short)
-    live = [k for k in range(case.meta["n"]) if k not in removed]
     if nlive not in live and top.get("kind") == 2:
-        ids = [kd["id"] for kd in top["kids"]]
+        ids = idmap
         succ = {k: [] for k in live}
-        for (x, y, w) in top["edges"]:
+        for (x, y, w) in edges_all:
             if x in succ and y in succ and y not in succ[x]: succ[x].append(y)
         for i, (c, sg) in enumerate(zip(calls, segs)):
             if c["code"] not in (0, 1) or sg["res"] != 1: continue
@@ -165,11 +203,12 @@ def oracle_removed(case, impl, spec):
 
 def removed_phase(run, d, bins, cases_unused):
     cases = gen_removed(run)
-    d2 = Differential(run, bins, None, None, oracle=oracle_removed, harness_head=lambda c: "causalrm", nontrivial=lambda c: len(c.ops) >= 2)
+    d2 = Differential(run, bins, None, None, oracle=oracle_removed, harness_head=lambda c: c.fam, nontrivial=lambda c: len(c.ops) >= 2)
     for i in range(0, len(cases), 500):
         d2.process(cases[i:i + 500])
     d2.finish()
     run.cov["graphs_with_removed_causaloids"] = len(cases)
+    run.cov["of_which_with_causaloids_added_after_the_removals"] = sum(1 for c in cases if c.fam == "causalrm2")
 
 
 def main():
@@ -182,7 +221,7 @@ _replay = mk_replay("C11", CHECKS)
 def replay(path):
     import json
     dj = json.load(open(path))
-    if dj.get("case", {}).get("family") == "causalrm":
+    if dj.get("case", {}).get("family") in ("causalrm", "causalrm2"):
         run = Run("C11"); ensure_driver(); bins = builds(run)
-        return generic_replay(Differential(run, bins, None, None, oracle=oracle_removed, harness_head=lambda c: "causalrm"), path)
+        return generic_replay(Differential(run, bins, None, None, oracle=oracle_removed, harness_head=lambda c: c.fam), path)
     return _replay(path)
